@@ -48,6 +48,14 @@ uint64_t time64_now(void) { return 0; }
 #pragma CPROVER check disable "pointer-primitive"
 #endif
 
+/* the atomic fields of the real structures: plain _Atomic objects with the real <stdatomic.h>, one-member structs with the
+ * shadow <stdatomic.h> of the interruption harnesses (C06_IRQ) */
+#ifdef C06_IRQ
+#define ATOM(x) ((x).v)
+#else
+#define ATOM(x) (x)
+#endif
+
 #ifndef NF
 #define NF 3 /* fibre pool */
 #endif
@@ -67,7 +75,7 @@ uint64_t time64_now(void) { return 0; }
 	A(uint16_t, fst, NF) A(uint8_t, stale, 8) S(uint32_t, taint) S(int32_t, T) S(uint8_t, f) S(int32_t, d_off) \
 	S(uint8_t, b_res) S(uint8_t, b_nrq) A(uint8_t, b_rq, NF) S(uint8_t, b_ntq) A(uint8_t, b_tq, NF)             \
 	S(uint8_t, b_np) A(uint8_t, b_pend, QD) S(uint8_t, b_rcv) A(uint32_t, b_off, NF) S(uint16_t, b_priv)       \
-	A(uint32_t, b_due, NF) S(uint32_t, b_taint)
+	A(uint32_t, b_due, NF) S(uint32_t, b_taint) A(uint8_t, e_m, 12) A(uint8_t, e_f, 4) S(uint8_t, e_junk)
 VERIF_INPUTS(IN_FIELDS)
 
 struct S {
@@ -186,7 +194,7 @@ static void realise(const struct S *s)
 	kernel.current = s->cur == NONE ? NULL : &F[s->cur];
 	kernel.state = (fibre_state_t)s->st;
 	kernel.now = s->now;
-	kernel.taint_flags = s->taint;
+	ATOM(kernel.taint_flags) = s->taint;
 	unsigned flags = 0;
 	for (unsigned k = 0; k < QD; k++) {
 		unsigned slot = (s->rcv + k) % QD;
@@ -198,9 +206,9 @@ static void realise(const struct S *s)
 		}
 	}
 	kernel.atomic_runq.receivep = s->rcv;
-	kernel.atomic_runq.sendp = (unsigned char)((s->rcv + s->np) % QD);
-	kernel.atomic_runq.num_free = (signed char)(QD - s->np);
-	kernel.atomic_runq.full_flags = flags;
+	ATOM(kernel.atomic_runq.sendp) = (unsigned char)((s->rcv + s->np) % QD);
+	ATOM(kernel.atomic_runq.num_free) = (signed char)(QD - s->np);
+	ATOM(kernel.atomic_runq.full_flags) = flags;
 }
 
 static uint8_t idx_of_link(const list_node_t *p)
@@ -260,7 +268,7 @@ static bool absS(struct S *s)
 	if (q->basep != (char *)atomic_runq_buf || q->msg_len != sizeof(atomic_runq_buf[0]) || q->queue_len != QD || q->receivep >= QD)
 		return false;
 	s->rcv = q->receivep;
-	unsigned flags = q->full_flags, np = 0, want = 0;
+	unsigned flags = ATOM(q->full_flags), np = 0, want = 0;
 	bool run = true;
 	for (unsigned k = 0; k < QD; k++) {
 		unsigned slot = (s->rcv + k) % QD;
@@ -275,7 +283,7 @@ static bool absS(struct S *s)
 		}
 	}
 	s->np = (uint8_t)np;
-	if (flags != want || q->sendp != (s->rcv + np) % QD || q->num_free != (int)(QD - np))
+	if (flags != want || ATOM(q->sendp) != (s->rcv + np) % QD || ATOM(q->num_free) != (int)(QD - np))
 		return false; /* sent messages are contiguous from the read position; the free count is exact at rest */
 	if (kernel.current == NULL) {
 		s->cur = NONE;
@@ -286,7 +294,7 @@ static bool absS(struct S *s)
 	}
 	s->st = (uint8_t)kernel.state;
 	s->now = kernel.now;
-	s->taint = kernel.taint_flags;
+	s->taint = ATOM(kernel.taint_flags);
 	return wf_struct(s);
 }
 
@@ -492,7 +500,7 @@ void handle_atomic_runq_contract(void)
 
 /* ------------------------------------------------------------------------------------ contract-only fibre body */
 static struct S EXPECT_PRE, BODY_POST;
-static bool body_called;
+static bool body_called, irq_body;
 static int body_result;
 
 int verif_body(fibre_t *f)
@@ -505,12 +513,14 @@ int verif_body(fibre_t *f)
 	if (!ok)
 		VASSUME(0);
 	VASSERT(f != NULL && f == fibre_self(), "C01 fibre_self names the fibre being dispatched");
+	if (!irq_body) {
 	VASSERT(a.cur == EXPECT_PRE.cur, "C01 the fibre dispatched is the head of the FIFO run queue after [atomic requests in arrival order, the fibre that yielded, the expired timeouts] joined its tail");
 	VASSERT(eq_runq(&a, &EXPECT_PRE), "C01 the run queue at dispatch: atomic requests in arrival order, then the fibre that yielded, then the expired timeouts, coalesced with fibres already queued");
 	VASSERT(eq_timerq(&a, &EXPECT_PRE), "C02 exactly the timeouts with due time at or before the time argument (cyclically) have expired, in due order; none early, none left behind");
 	VASSERT(eq_pend(&a, &EXPECT_PRE), "C01 the pass has consumed the atomic run requests that were pending");
 	VASSERT(eq_fibres(&a, &EXPECT_PRE), "C01 an exited or failed fibre restarts from its beginning; no other fibre field changes during the pass");
 	VASSERT(a.now == EXPECT_PRE.now && a.taint == EXPECT_PRE.taint, "C01 the time base is the time argument during the dispatch");
+	}
 	/* what the body may do: anything that the API lets it do.  The result is any invariant state with the same
 	 * current fibre and time base. */
 	struct S b = a;
@@ -695,7 +705,283 @@ void h_cmp(void)
 	VCOVER(a < 16 && b > 0xfffffff0u, "operands straddle the wrap");
 }
 
-VERIF_ENTRIES(E(h_next) E(h_drain) E(h_run) E(h_kill) E(h_timeout) E(h_run_atomic) E(h_initial) E(h_cmp))
+#ifdef C06_IRQ
+/* ====================================================================================================================
+ * C06 / C03: interruption.  Compiled against the shadow <stdatomic.h> (DESIGN P6): before every atomic operation of the
+ * main context verif_env() runs the interrupt handlers that may fire there - run to completion (nested handlers are
+ * handlers that fire inside handlers; by the time the main context resumes all of them are complete): each accepts
+ * a new fibre_run_atomic request at the tail of the atomic run queue (or taints 'A' if it is full).  Nothing else is
+ * shared, and main-context code owns nothing of a slot once it has released it: at the release the slot's payload is
+ * overwritten with junk (coarsest rely).  Arrivals per call are bounded by AMAX (bounded stand-in for "any number").
+ */
+#ifndef AMAX
+#define AMAX 2
+#endif
+static bool irq_on;
+static unsigned env_calls, arrivals, handled, released, n_empty_checks;
+static uint8_t arr_log[AMAX + 1];
+static bool last_check_pending, first_check_pending, drain_called, my_claim_done;
+static unsigned arrivals_before_my_claim, my_slot = NONE;
+static const void *watch_or_obj; /* L4: the object whose fetch_or must come second */
+static bool event_published;
+static fibre_eventq_t EQ;
+static uint32_t EB[4];
+
+static void irq_arrivals(void)
+{
+	unsigned k = env_calls < 12 ? env_calls : 11;
+	env_calls++;
+	unsigned m = IN.e_m[k] & 3;
+	for (unsigned j = 0; j < 2; j++) {
+		if (j >= m || arrivals >= AMAX)
+			continue;
+		messageq_t *q = &kernel.atomic_runq;
+		if (q->num_free.v > 0) {
+			unsigned slot = q->sendp.v;
+			uint8_t x = IN.e_f[arrivals] % NF;
+			atomic_runq_buf[slot] = &F[x];
+			q->full_flags.v |= 1u << slot;
+			q->sendp.v = (unsigned char)((slot + 1) % QD);
+			q->num_free.v--;
+			arr_log[arrivals] = x;
+			arrivals++;
+		} else {
+			kernel.taint_flags.v |= 1u;
+		}
+	}
+}
+
+void verif_env(const void *obj, enum verif_op op, memory_order mo)
+{
+	(void)obj; (void)op; (void)mo;
+	if (irq_on)
+		irq_arrivals();
+}
+
+void verif_post(const void *obj, enum verif_op op, memory_order mo, unsigned long long oldv, unsigned long long newv)
+{
+	(void)mo; (void)newv;
+	messageq_t *q = &kernel.atomic_runq;
+	if (!irq_on)
+		return;
+	if (obj == &q->full_flags && op == VOP_LOAD) { /* messageq_empty */
+		bool pending = (oldv & (1u << q->receivep)) != 0;
+		if (n_empty_checks == 0)
+			first_check_pending = pending;
+		last_check_pending = pending;
+		n_empty_checks++;
+	}
+	if (obj == &q->full_flags && op == VOP_FETCH_AND && (oldv & ~newv))
+		handled++; /* a successful receive */
+	if (obj == &q->num_free && op == VOP_FETCH_ADD && handled > released) {
+		released++;
+		/* release: the main context no longer owns the slot before receivep - anything may happen to its payload */
+		unsigned slot = (q->receivep + QD - 1) % QD;
+		atomic_runq_buf[slot] = (IN.e_junk % (NF + 1)) < NF ? &F[IN.e_junk % (NF + 1)] : NULL;
+	}
+	if (obj == &q->sendp && op == VOP_CAS_OK) { /* fibre_run_atomic of the verified context claims its slot */
+		my_slot = (unsigned)oldv;
+		my_claim_done = true;
+		arrivals_before_my_claim = arrivals;
+	}
+	if (obj == &q->full_flags && op == VOP_FETCH_OR && watch_or_obj)
+		VASSERT(event_published, "C06 the event is published (its buffer marked sent) before the wake-up for its fibre is posted");
+	if (obj == watch_or_obj && op == VOP_FETCH_OR)
+		event_published = true;
+}
+
+static void irq_reset(void)
+{
+	env_calls = arrivals = handled = released = n_empty_checks = 0;
+	last_check_pending = first_check_pending = drain_called = my_claim_done = false;
+	my_slot = NONE;
+	watch_or_obj = NULL;
+	event_published = false;
+}
+
+/* pending requests as the sequence [those of the pre-state] ++ [arrivals], minus the first `done` */
+static void s_irq_drain(struct S *s, unsigned done)
+{
+	uint8_t all[QD + AMAX + 1];
+	unsigned n = 0;
+	for (unsigned i = 0; i < QD; i++)
+		if (i < s->np)
+			all[n++] = s->pend[i];
+	for (unsigned i = 0; i < AMAX; i++)
+		if (i < arrivals)
+			all[n++] = arr_log[i];
+	for (unsigned i = 0; i < QD + AMAX; i++)
+		if (i < done && i < n)
+			s_make_runnable(s, all[i]);
+	s->rcv = (uint8_t)((s->rcv + done) % QD);
+	s->np = 0;
+	for (unsigned i = 0; i < QD + AMAX; i++)
+		if (i >= done && i < n && s->np < QD)
+			s->pend[s->np++] = all[i];
+}
+
+/* L2: handle_atomic_runq while interrupt handlers keep posting requests */
+void h_irq_drain(void)
+{
+	load_state(&S0, false);
+	irq_reset();
+	irq_on = true;
+	handle_atomic_runq();
+	irq_on = false;
+	struct S want = S0, got;
+	VASSERT(handled >= S0.np, "C06 every request pending when handle_atomic_runq starts is handled by it (none is lost)");
+	VASSERT(handled <= S0.np + arrivals, "C06 no request is handled twice");
+	s_irq_drain(&want, handled);
+	want.taint = S0.taint | (ATOM(kernel.taint_flags) & 1u);
+	bool ok = absS(&got);
+	VASSERT(ok, "C06 the scheduler's own queues are never corrupted by the interruption");
+	VASSERT(!ok || eq_runq(&got, &want), "C06 requests are made runnable in their order of arrival, each exactly once, from the payload they were posted with (read before the slot is released)");
+	VASSERT(!ok || eq_timerq(&got, &want), "C06 a fibre woken from interrupt context loses its pending timeout");
+	VASSERT(!ok || eq_pend(&got, &want), "C06 a request that arrives during the call is either handled or still pending afterwards, in order");
+	VASSERT(!ok || (eq_fibres(&got, &want) && eq_kernel(&got, &want)), "C06 handle_atomic_runq changes nothing else");
+	VCOVER(arrivals == AMAX && handled == S0.np + AMAX, "requests arriving during the drain are handled by it");
+	VCOVER(arrivals == AMAX && handled == S0.np && S0.np >= 1, "requests arriving after the last receive stay pending");
+	VCOVER(S0.np >= 1 && arrivals >= 1 && arr_log[0] == S0.pend[0], "the same fibre requested before and during the drain");
+}
+
+/* contract of handle_atomic_runq under interruption, as established by h_irq_drain: handles everything present when it
+ * starts and possibly later arrivals (first batch); arrivals after its last receive stay pending (second batch) */
+void handle_atomic_runq_irq_contract(void)
+{
+	drain_called = true;
+	irq_arrivals();
+	struct S a;
+	bool ok = absS(&a);
+	VASSERT(ok, "C06 handle_atomic_runq is called with the scheduler's queues well formed (callee precondition)");
+	if (!ok)
+		VASSUME(0);
+	s_drain(&a);
+	realise(&a);
+	irq_arrivals();
+}
+
+/* L3 + C03: a whole pass under interruption */
+void h_irq_next(void)
+{
+	load_state(&S0, true);
+	int64_t T = IN.T;
+	for (unsigned i = 0; i < NF; i++)
+		if (i < S0.ntq) {
+			int64_t o = (int64_t)(uint32_t)(S0.due[S0.tq[i]] - S0.now);
+			VASSUME(o - T < 0x80000000ll && o - T > -0x80000000ll);
+		}
+	uint32_t t = S0.now + (uint32_t)IN.T;
+	irq_reset();
+	body_called = false;
+	irq_body = true;
+	irq_on = true;
+	uint32_t r = fibre_scheduler_next(t);
+	irq_on = false;
+	struct S got;
+	bool ok = absS(&got);
+	VASSERT(ok && wf_time(&got), "C06 the scheduler's own queues are never corrupted by the interruption, wherever it occurs in a pass");
+	bool could_fast = S0.st == YIELDED && S0.nrq == 0 && S0.ntq == 0;
+	VASSERT(drain_called || (could_fast && !first_check_pending), "C06 a request that is pending when the fast-path test looks at the atomic queue sends the pass down the slow path");
+	bool yielded = body_called && body_result == YIELDED;
+	if (yielded)
+		VASSERT(r == t, "C03 the call returns its time argument when the dispatched fibre yielded");
+	else if (ok) {
+		VASSERT(!last_check_pending || r == t, "C03 an interrupt-context run request that completed before the scheduler's final check makes the call return its time argument (no oversleep)");
+		if (!last_check_pending)
+			VASSERT(r == (got.nrq ? t : got.ntq ? got.due[got.tq[0]] : t + 0x7fffffffu),
+				"C03 otherwise the call returns now if a fibre is runnable, else the earliest pending due time, else now+0x7fffffff");
+	}
+	VCOVER(last_check_pending && !yielded && arrivals >= 1 && S0.np == 0, "request arrives between the drain and the final check");
+	VCOVER(S0.ntq < 1 || (!last_check_pending && !yielded && arrivals >= 1), "request arrives after the final check: outside the statement");
+	VCOVER(S0.nrq || S0.ntq || (could_fast && !drain_called && body_called), "fast path taken");
+	VCOVER(S0.nrq || S0.ntq || (could_fast && drain_called && S0.np == 0), "fast path refused because of a request that arrived just before the test");
+}
+
+/* L1: fibre_run_atomic itself interrupted by handlers that post further requests */
+void h_irq_run_atomic(void)
+{
+	load_state(&S0, true);
+	unsigned f = IN.f;
+	VASSUME(f < NF);
+	irq_reset();
+	irq_on = true;
+	bool res = fibre_run_atomic(&F[f]);
+	irq_on = false;
+	struct S want = S0, got;
+	uint8_t all[QD + AMAX + 2];
+	unsigned n = 0;
+	for (unsigned i = 0; i < QD; i++)
+		if (i < S0.np)
+			all[n++] = S0.pend[i];
+	for (unsigned i = 0; i < AMAX; i++)
+		if (i < arrivals && (!res || i < arrivals_before_my_claim))
+			all[n++] = arr_log[i];
+	if (res)
+		all[n++] = (uint8_t)f;
+	for (unsigned i = 0; i < AMAX; i++)
+		if (res && i < arrivals && i >= arrivals_before_my_claim)
+			all[n++] = arr_log[i];
+	want.np = (uint8_t)(n <= QD ? n : QD);
+	for (unsigned i = 0; i < QD; i++)
+		if (i < n)
+			want.pend[i] = all[i];
+	bool ok = absS(&got);
+	VASSERT(n <= QD, "C06 never more than 8 requests are accepted");
+	VASSERT(ok, "C06 fibre_run_atomic leaves the atomic run queue and the scheduler's own queues well formed under interruption");
+	want.taint = got.taint;
+	VASSERT(!ok || eq_pend(&got, &want), "C06 an accepted request is queued exactly once, after every request accepted before it and before every later one; a refused request queues nothing");
+	VASSERT(!ok || (eq_runq(&got, &want) && eq_timerq(&got, &want) && eq_fibres(&got, &want) && eq_kernel(&got, &want)),
+		"C06 fibre_run_atomic touches nothing but the atomic run queue and the taint flags (the scheduler's own queues are never corrupted by the interruption)");
+	VASSERT(res || (ATOM(kernel.taint_flags) & 1u), "C06 a refused request is recorded as taint 'A'");
+	VASSERT(res || S0.np + arrivals >= QD, "C06 a request is refused only if the queue held 8 requests at that instant");
+	VCOVER(res && arrivals == AMAX && arrivals_before_my_claim == 1, "handlers fire before and after the claim");
+#if PMAX >= QD
+	VCOVER(!res, "refused");
+	VCOVER(res && S0.np + arrivals == QD, "last slot");
+#endif
+}
+
+/* L4: fibre_eventq_send publishes the event before it posts the wake-up */
+void h_irq_eventq_send(void)
+{
+	load_state(&S0, true);
+	irq_reset();
+	fibre_eventq_init(&EQ, verif_body, EB, sizeof(EB), sizeof(EB[0]));
+	unsigned pre = IN.f % 4; /* arbitrary ring position of the event queue */
+	for (unsigned i = 0; i < 3; i++)
+		if (i < pre) {
+			void *m = fibre_eventq_claim(&EQ);
+			messageq_send(&EQ.eventq, m);
+			(void)fibre_eventq_receive(&EQ);
+			fibre_eventq_release(&EQ, m);
+		}
+	uint32_t *evt = fibre_eventq_claim(&EQ);
+	VASSUME(evt != NULL);
+	*evt = IN.now;
+	unsigned eslot = (unsigned)(evt - EB);
+	watch_or_obj = &EQ.eventq.full_flags;
+	irq_on = true;
+	bool res = fibre_eventq_send(&EQ, evt);
+	irq_on = false;
+	watch_or_obj = NULL;
+	VASSERT((EQ.eventq.full_flags.v >> eslot) & 1u, "C06 the event is marked sent");
+	VASSERT(EB[eslot] == IN.now, "C06 the event payload is what the sender wrote");
+	if (res) {
+		VASSERT(my_slot < QD && atomic_runq_buf[my_slot] == &EQ.fibre && ((kernel.atomic_runq.full_flags.v >> my_slot) & 1u),
+			"C06 an accepted event leaves a pending wake-up for the event queue's fibre");
+	} else {
+		VASSERT(kernel.taint_flags.v & 1u, "C06 a refused wake-up is recorded as taint 'A'");
+	}
+	VASSERT(fibre_eventq_receive(&EQ) == evt, "C06 the event is received (once) by the fibre's next receive");
+	VCOVER(res && arrivals >= 1, "interrupt between publish and wake-up");
+	VCOVER(eslot == 3, "event in the last slot of its ring");
+}
+#define IRQ_ENTRIES E(h_irq_drain) E(h_irq_next) E(h_irq_run_atomic) E(h_irq_eventq_send)
+#else
+#define IRQ_ENTRIES
+#endif /* C06_IRQ */
+
+VERIF_ENTRIES(E(h_next) E(h_drain) E(h_run) E(h_kill) E(h_timeout) E(h_run_atomic) E(h_initial) E(h_cmp) IRQ_ENTRIES)
 #ifndef VERIF_NATIVE
 #pragma CPROVER check pop
 #endif
